@@ -47,7 +47,7 @@ pub fn spec(prop: &str) -> Option<PropSpec> {
             &["probe.pair_compared", "probe.converge", "probe.child_delivered_before_parent", "probe.block_before_pack", "probe.reopen_compared", "probe.conflict_at_sync", "probe.array_in_conflict_at_sync"]),
         "C02" => s("C02", "exploration", 60000, 1200000, &["probe.block_held_back"], &["probe.ref_compared"],
             "histories in which single block/pack files are delivered one at a time in seeded (biased) orders with a refresh after deliveries; in a quarter of the runs (thorough: all) the newest 4 (thorough: 5) files of the richest store are additionally delivered in ALL k! orders to a replica holding the rest, refresh and comparison after every file; non-trivial = at least one block was observed held back at a sync point; distinct = distinct op/fault sequence hash",
-            &["probe.block_held_back", "probe.held_back_depth_ge_2", "probe.child_delivered_before_parent", "probe.block_before_pack", "probe.deliver_duplicate", "enum.c02_permutations", "enum.c02_prefixes"]),
+            &["probe.block_held_back", "probe.held_back_depth_ge_2", "probe.child_delivered_before_parent", "probe.block_before_pack", "probe.deliver_duplicate", "enum.c02_permutations", "enum.c02_prefixes", "probe.refresh_after_time_travel", "fault.walk_torn_arrival", "fault.walk_restore"]),
         "C03" => s("C03", "exploration", 100000, 1500000, &["probe.reopen_compared"], &["probe.commit_ok"],
             "histories with nasty JSON content and 1..n staged operations between commits; after every successful commit a second replica is opened on the same storage and compared; non-trivial = at least one commit was compared with a fresh open; distinct = distinct op sequence hash",
             &["probe.reopen_compared", "probe.objop"]),
@@ -65,13 +65,13 @@ pub fn spec(prop: &str) -> Option<PropSpec> {
             &["probe.commit_with_array_conflict", "probe.commit_with_object_conflict", "probe.snapshot_staged_something", "probe.meld_items"]),
         "C13" => s("C13", "exploration", 60000, 1500000, &["probe.block_read_back"], &["probe.commit_ok"],
             "commit graph monitors around every commit and at every sync point; non-trivial = blocks were read back and compared with their files; distinct = distinct op sequence hash",
-            &["probe.block_read_back", "probe.checkpoint_multihead", "probe.block_index_ge_10", "probe.graph_checked_in_time_travel"]),
-        "C14" => s("C14", "exploration", 25000, 400000, &["probe.reload_until"], &[],
-            "reload_until / new_until for heads the replica had before (sampled inside the run; at the end of each history every replica travels to each of its checkpoints and back — every head set the replica ever had when there are at most 10, else 10 of them), compared with the recorded checkpoint and the reference restricted to ancestors; non-trivial = at least one time travel executed; distinct = distinct op sequence hash",
-            &["probe.reload_until", "probe.reload_until_multihead", "probe.history_rev_checked", "enum.c14_checkpoint_forks", "enum.c14_multihead_forks"]),
+            &["probe.block_read_back", "probe.checkpoint_multihead", "probe.block_index_ge_10", "probe.graph_checked_in_time_travel", "probe.reload_until_redundant_anchors", "probe.reload_until_foreign_heads"]),
+        "C14" => s("C14", "exploration", 14000, 300000, &["probe.reload_until"], &[],
+            "reload_until / new_until for heads the replica had before (sampled inside the run; at the end of each history every replica travels to each of its checkpoints and back — every head set the replica ever had when there are at most 10, else 10 of them; then a walk of up to 8 consecutive travels without reload in between, through head sets of all replicas that are complete in this replica's storage, a quarter of them with a redundant ancestor added to the request), compared with the recorded checkpoint and the reference restricted to ancestors; non-trivial = at least one time travel executed; distinct = distinct op sequence hash",
+            &["probe.reload_until", "probe.reload_until_multihead", "probe.history_rev_checked", "enum.c14_checkpoint_forks", "enum.c14_multihead_forks", "enum.c14_walk_steps", "probe.reload_until_foreign_heads", "probe.reload_until_redundant_anchors", "probe.reload_until_consecutive"]),
         "C15" => s("C15", "exploration", 100000, 1500000, &["probe.unstage_compared", "probe.stage_roundtrip", "probe.refresh_with_stage"], &[],
             "staged operations of any mix followed by unstage / export+replay / commit / refused refresh; non-trivial = at least one of those comparisons ran; distinct = distinct op sequence hash",
-            &["probe.unstage_compared", "probe.stage_roundtrip", "probe.refresh_with_stage", "probe.objop", "probe.resolve"]),
+            &["probe.unstage_compared", "probe.stage_roundtrip", "probe.refresh_with_stage", "probe.objop", "probe.resolve", "probe.commit_failed", "probe.retry_after_failed_commit", "probe.replayed_stage_objects_already_durable"]),
         "C16" => s("C16", "exploration", 60000, 900000, &["probe.array_revision_reconstructed"], &[],
             "chains of successive versions of flattened arrays with commits, snapshots and reopen under drawn cache capacities; non-trivial = stored revisions were reconstructed by the reference and compared with the submitted order; distinct = distinct op sequence hash",
             &["probe.array_revision_reconstructed", "probe.snapshot_staged_something"]),
@@ -89,10 +89,10 @@ pub fn spec(prop: &str) -> Option<PropSpec> {
             &["probe.array_merge_checked"]),
         "C09" => s("C09", "fault_enumeration", 15000, 375000, &["enum.crash_points"], &["enum.write_failures"],
             "per generated history, for (up to 6) commit and meld operations in it: EVERY storage-write boundary is a crash point (snapshot of the durable map, reopened; for commits also restarted, the same document submitted again and committed), and EVERY write position fails once, 2x and 3x in a row, plus a full disk, followed by retries; histories are sampled, boundaries and positions are enumerated completely; non-trivial = a history in which at least one target was enumerated; distinct = distinct op sequence hash",
-            &["enum.commit_targets", "enum.meld_targets", "enum.crash_points", "enum.crash_redo", "enum.write_failures", "enum.retries_completed", "fault.write_err", "fault.disk_full", "fault.crash_snapshot"]),
+            &["enum.commit_targets", "enum.meld_targets", "enum.crash_points", "enum.crash_redo", "enum.crash_redo_peer", "enum.write_failures", "enum.retries_completed", "fault.write_err", "fault.disk_full", "fault.crash_snapshot"]),
         "C10" => s("C10", "fault_enumeration", 20000, 300000, &["enum.damage_cases"], &["probe.damage_open_ok"],
             "per generated history, on the richest store: for EVERY item bit flips at first/last/8 seeded positions (thorough: every byte), truncation to 0/1/mid/len-1 (thorough: every length), deletion, all pairs of deletions (thorough: triples), and a fixed list of junk-file classes; at rest then open, in transit then refresh, and (packs only) under an already open replica followed by get_value of every revision; non-trivial = a history whose damage cases were enumerated and at least one damaged store opened; distinct = distinct op sequence hash",
-            &["enum.damage_cases", "enum.damage_cases_in_transit", "enum.damage_cases_live", "probe.damage_live_read_refused", "probe.damage_open_ok", "probe.damage_open_err", "probe.damage_value_checked", "fault.damage_bitflip", "fault.damage_truncate", "fault.damage_delete", "fault.damage_junk"]),
+            &["enum.damage_cases", "enum.damage_cases_in_transit", "enum.damage_cases_live", "enum.damage_walk_steps", "probe.damage_walk_clean_compared", "fault.walk_delete", "fault.walk_restore", "probe.damage_live_read_refused", "probe.damage_open_ok", "probe.damage_open_err", "probe.damage_value_checked", "fault.damage_bitflip", "fault.damage_truncate", "fault.damage_delete", "fault.damage_junk"]),
         "C17" => s("C17", "exploration", 6000, 90000, &["probe.backend_calls"], &["contract.write"],
             "run k uses backend k mod 12 of {memory, directory, SQLite file, SQLite in-memory} x {plain, Deflate, Brotli}: (1) a replica history over SimAdapter with the real backend behind it, every read/list answered by the backend and compared with the first-write-wins model, persistent backends re-constructed on restart; (2) a seeded write/read/ranged-read/list/reopen sequence with arbitrary bytes against the same model; non-trivial = both parts ran; distinct = distinct op sequence hash",
             &["contract.write", "contract.second_write", "contract.read_range", "contract.list", "contract.read_missing", "fault.backend_reopen", "probe.backend_calls", "probe.backend.dir", "probe.backend.sqlite", "probe.backend.sqlite+brotli", "probe.backend.memory+flate"]),
@@ -202,7 +202,8 @@ pub fn cmd_worker(args: &[String]) -> i32 {
             };
             let path = format!("{}/replays/{}-{}-{}-{}.json", verif_home(), prop, crate::seam::FLAVOUR, base, k - stride);
             let _ = std::fs::create_dir_all(format!("{}/replays", verif_home()));
-            let file = runner::replay_file_json(&cfg2, &ops2, &v2, &r.stats, json!({"original_ops": r.ops.len(), "shrink_candidates_tried": tried}));
+            let file = runner::replay_file_json(&cfg2, &ops2, &v2, &r.stats, json!({"original_ops": r.ops.len(), "shrink_candidates_tried": tried,
+                "process_history": {"property": prop, "base": base, "from": from, "stride": stride, "before_k": k - stride, "run_seed": seed}}));
             std::fs::write(&path, serde_json::to_string_pretty(&file).unwrap()).expect("cannot write replay file");
             violations.push(json!({"replay": path, "class": v2.class, "detail": v2.detail, "check": v2.check, "run_seed": seed}));
             samples.push(json!({"run_seed": seed, "violating": true, "config": cfg2.to_json(), "ops": op_samples(&ops2)}));
@@ -354,6 +355,19 @@ pub fn cmd_check(args: &[String]) -> i32 {
         let want = format!("class={}", v["class"].as_str().unwrap());
         if o.status.code() == Some(1) && so.contains(&want) {
             confirmed.push(v.clone());
+        } else if let Some(mode) = ["with-history", "with-history-regenerate"].iter().find(|mode| {
+            // the violation may depend on what the worker process executed before (process-wide
+            // state in the library): replay the worker's preceding runs first, then the file
+            let o = std::process::Command::new(&exe).args(["replay", path, "--mode", mode]).output().expect("replay");
+            o.status.code() == Some(1) && String::from_utf8_lossy(&o.stdout).contains(&want)
+        }) {
+            if let Ok((_, _, mut file)) = runner::load_replay(path) {
+                file["replay_mode"] = json!(mode);
+                let _ = std::fs::write(path, serde_json::to_string_pretty(&file).unwrap());
+            }
+            let mut v = v.clone();
+            v["detail"] = json!(format!("[depends on process-wide state: a fresh process replays it only after the worker's preceding runs, which the replay file records (replay_mode={})] {}", mode, v["detail"].as_str().unwrap_or("")));
+            confirmed.push(v);
         } else {
             eprintln!("HARNESS-ERROR replay of {} did not reproduce the violation (exit {:?})\n{}", path, o.status.code(), so);
             harness_error = true;
@@ -467,7 +481,27 @@ pub fn cmd_replay(args: &[String]) -> i32 {
     if file["run_config"]["build"].as_str().map_or(false, |b| b != crate::seam::FLAVOUR) {
         eprintln!("note: replay file was recorded with build {} and is replayed with build {}", file["run_config"]["build"], crate::seam::FLAVOUR);
     }
-    let r = runner::replay(&cfg, &ops);
+    let mode = arg(args, "--mode").map(|s| s.to_string()).or_else(|| file["replay_mode"].as_str().map(|s| s.to_string())).unwrap_or_default();
+    let mut regenerated = None;
+    if mode.starts_with("with-history") {
+        let h = &file["extra"]["process_history"];
+        let (hp, base, from, stride, before) = (h["property"].as_str().unwrap_or(""), h["base"].as_u64().unwrap_or(0), h["from"].as_u64().unwrap_or(0), h["stride"].as_u64().unwrap_or(1).max(1), h["before_k"].as_u64().unwrap_or(0));
+        let mut j = from;
+        let mut n = 0;
+        while j < before {
+            let _ = runner::generate(hp, run_seed(base, hp, j));
+            j += stride;
+            n += 1;
+        }
+        println!("process history: {} preceding runs of the worker re-executed", n);
+        if mode == "with-history-regenerate" {
+            regenerated = Some(runner::generate(hp, h["run_seed"].as_u64().unwrap_or(0)));
+        }
+    }
+    let r = match regenerated {
+        Some(r) => r,
+        None => runner::replay(&cfg, &ops),
+    };
     println!("replay {}: {} ops, {} steps", path, ops.len(), r.steps);
     if args.iter().any(|a| a == "-v") {
         for (i, o) in ops.iter().enumerate() {
